@@ -921,4 +921,6 @@ def check(chk, which, tier, only=None):
             e4traits.check_size_bytes_trait(ctx, "E4.size_bytes")
     chk.extra["programs"] = n_s
     chk.extra["schemas"] = progs
+    import gcov
+    gcov.attach(chk, set(progs))     # which generator templates these schemas reach (evidence only)
     return n_s
